@@ -222,6 +222,7 @@ class Runner:
         return cands[0]
 
     def do_descr(self, op):
+        pending_mds = {}
         with self.pm.descriptor_transaction() as tr:
             for i, act in enumerate(op['actions']):
                 if op.get('abort_at') == i:
@@ -234,6 +235,10 @@ class Runner:
                         ent.descriptor.Handle = handle
                         ent.descriptor.parent_handle = parent
                         ent.descriptor.DescriptorVersion = 0
+                        # like ProviderEntityGetter.new_entity: the source MDS is inherited from the parent
+                        par = self.pm.descriptions.handle.get_one(parent, allow_none=True)
+                        ent.descriptor.set_source_mds(par.source_mds if par is not None else pending_mds.get(parent))
+                        pending_mds[handle] = ent.descriptor.source_mds
                         mdibrun.set_payload(ent.descriptor, n, self.pm_types)
                         if ent.is_multi_state:
                             ent.states.clear()
@@ -249,6 +254,7 @@ class Runner:
                         d.Handle = handle
                         d.parent_handle = parent
                         d.DescriptorVersion = 0
+                        d.set_source_mds(None)                    # a new descriptor: the library determines its MDS
                         mdibrun.set_payload(d, n, self.pm_types)
                         st = None
                         if not d.is_context_descriptor:
